@@ -29,6 +29,11 @@ class SimAbort(BaseException):
     (deadlock, step cap).  BaseException so `except Exception` cannot eat it."""
 
 
+class SelfDeadlock(RuntimeError):
+    """A single-threaded run asked for a lock it already holds (it was never
+    released on some earlier path): the real lock would block for ever."""
+
+
 class SimLock(object):
     """threading.Lock / RLock with the real semantics; a contended acquire is a
     scheduler decision instead of a kernel wait.  Outside a simulation (or
@@ -50,6 +55,11 @@ class SimLock(object):
                                         not isinstance(self.owner, tuple):
                 raise RuntimeError('SimLock held by a simulated thread is '
                                    'being taken from outside the simulation')
+            if self.owner == me and self.count > 0 and not self.reentrant:
+                # one thread, nobody else to release it: in a real process
+                # this acquire never returns
+                raise SelfDeadlock('non-reentrant %s taken again by the '
+                                   'thread that holds it' % self.name)
             self.owner = me
             self.count += 1
             return True
